@@ -440,3 +440,31 @@ META["C15"] = dict(
     },
     assumptions=["a link whose selected class does not define the target parameter is documented to be ignored"],
 )
+
+META["C17"] = dict(
+    title="Exactly one subcommand is selected and only its settings survive",
+    level="exploration",
+    level_text="Reference-model monitor over generated subcommand trees (depth 1-3, 1-4 subcommands per level, required / optional, "
+    "options at every level, config arguments and default config files at any level, default_env on): inputs select, omit, or give "
+    "settings for one or several subcommands through argv, --cfg string / file, object, config string and environment, "
+    "including argv and config naming different subcommands. The model computes the expected choice at every level and the "
+    "complete expected tree (defaults < default config file < environment < config < command line); the real result must "
+    "equal it exactly (no other sections), or the parse must fail when a required subcommand is undeterminable.",
+    level_note="Trusted: the model's reading of the selection rule and of the environment variable names (PREFIX_SUB__OPT, "
+    "PREFIX_SUB__SUBCOMMAND). Environment-given settings are always accompanied by a named choice.",
+    shards=g(4, 16),
+    budget=g(40, 240),
+    technique="reference-model monitor (selection rule + per-level precedence fold) over generated subcommand trees and inputs",
+    rule="a case is (depth, channel, selection rule branch at the top level, tree shape, config document, argv selection); distinct "
+    "by hash; non-trivial = the tree has at least one level of subcommands (always).",
+    gates={
+        "mon.tree_comparisons": g(2000, 20000),
+        "st.rule.argv-named": g(300, 3000), "st.rule.config-named": g(100, 1000), "st.rule.env-named": g(50, 500),
+        "st.rule.first-with-settings": g(50, 500), "st.rule.first-with-settings-of-several": g(30, 300),
+        "st.rule.undeterminable-required": g(50, 500), "st.rule.undeterminable-optional": g(30, 300),
+        "st.rule.argv-named+config-disagrees": g(30, 300),
+        "st.depth.2": g(300, 3000), "st.depth.3": g(150, 1500),
+        "st.channel.object": g(200, 2000), "st.channel.argv+cfgfile": g(200, 2000),
+    },
+    assumptions=["the multiple-settings warning is not judged"],
+)
